@@ -29,7 +29,7 @@ static void load(void)
 			cap = cap ? cap * 2 : 64;
 			vals = realloc(vals, cap * sizeof(*vals));
 		}
-		vals[nvals++] = strtoll(line, NULL, 0);
+		vals[nvals++] = (line[0] == '-') ? strtoll(line, NULL, 0) : (long long)strtoull(line, NULL, 0);	/* 64 bit unsigned values do not fit strtoll */
 	}
 	fclose(fp);
 }
